@@ -187,7 +187,8 @@ func (e customErr) Error() string { return fmt.Sprintf("custom error %d", e.code
 // the failure sites: distinct functions so that tracebacks differ
 //
 //go:noinline
-func siteA(t *rapid.T, msg string) { t.Fatalf("site A: %s", msg) }
+// the message contains a literal per cent sign and verbs: whoever reports it must treat it as data, not as a format
+func siteA(t *rapid.T, msg string) { t.Fatalf("site A (100%%, %%d %%v): %s", msg) }
 
 //go:noinline
 func siteB(t *rapid.T, msg string) { t.Fatalf("site B: %s", msg) }
@@ -247,7 +248,7 @@ func Perform(t *rapid.T, b Beh, msg string) {
 	case BFatal:
 		t.Fatal("fatal:", msg)
 	case BPanicStr:
-		sitePanic("boom " + msg)
+		sitePanic("boom %v 5% " + msg)
 	case BPanicErr:
 		sitePanic(errors.New("boom error " + msg))
 	case BPanicStruct:
@@ -286,13 +287,13 @@ func Perform(t *rapid.T, b Beh, msg string) {
 		siteA(t, msg)
 	case BCleanupSkipThenPanic:
 		t.Cleanup(func() { t.SkipNow() })
-		sitePanic("boom " + msg)
+		sitePanic("boom %v 5% " + msg)
 	case BCleanupRejectThenFatal:
 		t.Cleanup(func() { rejectingGen.Draw(t, "never") })
 		siteA(t, msg)
 	case BCleanupRejectThenPanic:
 		t.Cleanup(func() { rejectingGen.Draw(t, "never") })
-		sitePanic("boom " + msg)
+		sitePanic("boom %v 5% " + msg)
 	case BFailNowD:
 		siteD(t)
 	case BPanicDivA:
